@@ -5,6 +5,7 @@ package main
 // (plus random redundant ones), random layout and keyword synonyms.
 
 import (
+	"fmt"
 	"sort"
 	"strconv"
 	"strings"
@@ -49,10 +50,10 @@ type progGen struct {
 	fresh     *int
 }
 
-var plainNames = []string{"a", "b", "c", "x", "y", "name", "ts", "user_id", "cnt", "_v", "a1", "T2"}
+var plainNames = []string{"a", "b", "c", "x", "y", "name", "ts", "user_id", "cnt", "_v", "a1", "T2", "In", "BY", "Or", "AND", "Not", "True", "NULL", "Asc", "Kind", "Let", "iN", "oR", "By", "And"}
 var oddNames = []string{"`my col`", "`a``b`", "`x'y`", "`sel\"ect`", "`--`", "`/*`", "`;`", "`\\`", "where", "count", "by2", "let", "kind", "on", "asc", "nulls", "with", "$x", "`é`", "`$left`"}
 var unknownFuncs = []string{"foo", "lower", "startswith", "sum", "min", "max", "avg", "dcount", "f_2", "abs"}
-var stringLits = []string{`'a'`, `"b"`, `''`, `'it\'s'`, `"say \"hi\""`, `'a\nb'`, `'tab\there'`, `'back\\slash'`, `'--'`, `'/*'`, `';'`, `'"'`, `"'"`, "'`'", `'é'`, `'日本'`, `'%'`, `'x;y'`}
+var stringLits = []string{`'a'`, `"b"`, `''`, `'it\'s'`, `"say \"hi\""`, `'a\nb'`, `'tab\there'`, `'back\\slash'`, `'C:\\'`, `"A:\\"`,`'--'`, `'/*'`, `';'`, `'"'`, `"'"`, "'`'", `'é'`, `'日本'`, `'%'`, `'x;y'`}
 var numberLits = []string{"0", "1", "2", "42", "007", "3.14", ".5", "1.", "1e3", "1E-2", "0x1F", "0XaB", "0.0", "10", "100000000000"}
 
 func pick[T any](xs []T) T { return xs[rng.Intn(len(xs))] }
@@ -306,7 +307,7 @@ func exposedLevel(n *enode) int {
 
 // ---- layout
 
-var seps = []string{" ", " ", " ", " ", "  ", "\n", "\t", " \n  ", " // note\n", "\r\n", " ", " //\n"}
+var seps = []string{" ", " ", " ", " ", "  ", "\n", "\t", " \n  ", " // note\n", "\r\n", " ", " //\n", " // 3.5\" wide\n", " // it's\n", " // `tick ; (\n", " //\x00 nul\n"}
 
 func isBracketish(s string) bool {
 	switch s {
@@ -354,6 +355,10 @@ func (g *progGen) colName() string {
 	if g.evalMode {
 		*g.fresh++
 		return "n" + strconv.Itoa(*g.fresh)
+	}
+	if g.misuse > 0 && rng.Intn(1000) < g.misuse {
+		// $left / $right as a bare column (of project) or as the name a column is given
+		return pick([]string{"$left", "$right"})
 	}
 	if !g.safeNames && rng.Intn(6) == 0 {
 		return pick(oddNames)
@@ -683,6 +688,9 @@ func genParseCases(tier string, emit func(op string, fields ...string)) {
 		emit("PARSE", hexs(s))
 		emit("PIECES", hexs(s))
 	}
+	for _, s := range genWidePrograms(2) {
+		emit("PARSE", hexs(s))
+	}
 	// Parse of a whole source vs Parse of its pieces: several statements, some broken, with
 	// semicolons inside brackets, strings, comments (C15)
 	for i := 0; i < nValid/4; i++ {
@@ -793,6 +801,8 @@ func genParseCases(tier string, emit func(op string, fields ...string)) {
 
 // parseCorpus: hand-written edge cases and minimised past failures, run first.
 var parseCorpus = []string{
+	"Sales | where In > 0 and By == 'x'", "States | project OR, IN", "IN | count", "let In = 5; States | take In", "States | summarize count() by Region, Or", "States | sort by AND desc nulls last, Region",
+	"States | join kind=inner (Other | project By) on By", "States | as By", "States | where Region.In == 1", "T | where a iN (1)", "T | summarize count() BY a", "T | where a AND b", "T | where a Or b",
 	"", ";", ";;", "T", "T;", "T | count", "T | where (a)", "T | where f(b[=])", "T | summarize a, b[ | where c",
 	"T | summarize a,", "T | summarize a, | where c", "T | summarize a, by b", "T | summarize by a,", "T | summarize",
 	"T | extend a+b", "T | extend x = ", "T | project a,", "T | project a = 1 b", "T | sort by a,", "T | sort a",
@@ -819,6 +829,52 @@ func init() {
 	caseSets["walk"] = genWalkCases
 }
 
+// genWidePrograms: nodes with MANY children (lists of 15..70 elements: `in` values, call arguments, project /
+// extend / summarize columns, group keys, sort terms, join conditions, render properties), literals and
+// non-literals mixed in every order - list-length thresholds (16, 32, 64) in a traversal, a writer or a span union
+func genWidePrograms(k int) []string {
+	elem := func(i int) string {
+		switch rng.Intn(7) {
+		case 0:
+			return fmt.Sprintf("c%d", i)
+		case 1:
+			return fmt.Sprintf("-%d", i)
+		case 2:
+			return fmt.Sprintf("t.c%d", i)
+		case 3:
+			return fmt.Sprintf("tolower(s%d)", i)
+		case 4:
+			return fmt.Sprintf("(%d)", i)
+		case 5:
+			return fmt.Sprintf("'v%d'", i)
+		}
+		return fmt.Sprintf("%d", i)
+	}
+	list := func(n int, f func(int) string) string {
+		var xs []string
+		for i := 0; i < n; i++ {
+			xs = append(xs, f(i+1))
+		}
+		return strings.Join(xs, ", ")
+	}
+	var out []string
+	for r := 0; r < k; r++ {
+		n := pick([]int{15, 16, 17, 18, 31, 32, 33, 40, 64, 65, 70})
+		out = append(out,
+			"T | where id in ("+list(n, elem)+") | count",
+			"T | where not(x in ("+list(n, func(i int) string { return fmt.Sprintf("%d", i) })+", -1, other))",
+			"T | extend n1 = strcat("+list(n, elem)+")",
+			"T | project "+list(n, func(i int) string { return pick([]string{fmt.Sprintf("c%d", i), fmt.Sprintf("n%d = c%d + 1", i, i)}) }),
+			"T | summarize "+list(n, func(i int) string { return fmt.Sprintf("n%d = sum(c%d)", i, i) })+" by "+list(n, func(i int) string { return fmt.Sprintf("k%d", i) }),
+			"T | sort by "+list(n, func(i int) string { return fmt.Sprintf("c%d %s", i, pick([]string{"asc", "desc", "asc nulls last", "desc nulls first"})) }),
+			"T | join kind=inner (U) on "+list(n, func(i int) string { return pick([]string{fmt.Sprintf("k%d", i), fmt.Sprintf("$left.a%d == $right.b%d", i, i)}) }),
+			"A | join (B) on $left.k == $right.k, ($left.id in ("+list(n, func(i int) string { return fmt.Sprintf("%d", i) })+", $right.alt)) == 1",
+			"T | render t with ("+list(n, func(i int) string { return fmt.Sprintf("p%d = %d", i, i) })+")",
+		)
+	}
+	return out
+}
+
 func genWalkCases(tier string, emit func(op string, fields ...string)) {
 	n := 3000
 	if tier == "thorough" {
@@ -827,6 +883,10 @@ func genWalkCases(tier string, emit func(op string, fields ...string)) {
 	for _, s := range parseCorpus {
 		emit("WALK", hexs(s), "-")
 		emit("WALK", hexs(s), "10")
+	}
+	for _, s := range genWidePrograms(3) {
+		emit("WALK", hexs(s), "-")
+		emit("WALK", hexs(s), "110")
 	}
 	for i := 0; i < n; i++ {
 		depth := 1 + rng.Intn(4)
@@ -909,6 +969,9 @@ func genCompileCases(tier string, emit func(op string, fields ...string)) {
 		emit("COMPILE", hexs(s), "-")
 		emit("COMPILE", hexs(s), fmtParams(map[string]string{"p": "$1", "n": "5"}))
 	}
+	for _, s := range genWidePrograms(2) {
+		emit("COMPILE", hexs(s), "-")
+	}
 	for i := 0; i < n; i++ {
 		ps := pick(paramSets)
 		var names []string
@@ -956,6 +1019,10 @@ func genCompileCases(tier string, emit func(op string, fields ...string)) {
 		{"T | where not(a, b)", "U | count"},
 		{"T | where a == 1 | extend y = strcat() | count", "U | where b == 2 | take 1"},
 		{"T | where $left.a == 1", "let q = 1; U | where b == q"},
+		// sources that differ only in surrounding white space: the positions in their error messages differ
+		{"T | where", "T | where\n"}, {"T | frobnicate", "\nT | frobnicate"}, {"T | where not(a, b)", "\n\n\nT | where not(a, b)"},
+		{"T | take 1 | where $left.x == 1", "\n   T | take 1 | where $left.x == 1\n"}, {"\tT | where iff(a)", "T | where iff(a)"},
+		{" T | join (U) on", "T | join (U) on "}, {"T | where strcat()  ", "  T | where strcat()"}, {"T |", "\r\n\tT |"},
 	}
 	for _, pr := range seqPairs {
 		for _, ps := range paramSets {
@@ -1016,6 +1083,10 @@ func genCompileCases(tier string, emit func(op string, fields ...string)) {
 
 // compileCorpus: hand-written edge cases and minimised past failures, run first.
 var compileCorpus = []string{
+	"T | project $left", "T | project a, $right, b = 1", "T | join (U | project $right) on a", "T | extend $left = 1", "T | project $left = a", "T | summarize $right = count()",
+	"T | as $left", "T | take 5 | project a, $left", "T | join (U) on a | project a, $left", "let n = 1; T | project n, $left", "T | project `$left`", "T | summarize count() by $right = a",
+	"Sales | where In > 0 and By == 'x'", "States | project OR, IN", "IN | count", "let In = 5; States | take In", "States | summarize count() by Region, Or", "States | sort by AND desc nulls last, Region",
+	"States | join kind=inner (Other | project By) on By", "States | as By", "States | where Region.In == 1", "T | where a * +(b + c) > 3", "T | where +(a + b) * c > 3", "T | where a - +(b - c) == 0", "T | where 7 % +(a + 3) == 1",
 	"T | where $foo(a) > 1", "T | extend x = $f(1) + $left(2)", "T | where Not(a) + 1 > 0", "T | where Case(a) > 1", "T | where x == AND(a)", "T | where is(a)", "T | project y = In(a, b)", "T | where not(a) + 1 > 0",
 	"T | where null(1) == 1", "T | where true(1)", "T | where false(a.b) > 0", "T | where current_timestamp(1) > 0",
 	"T | where -((-a)) > 0", "T | where -(((-a))) > 0", "let n = ((-1)); T | where a > -n", "T | where ((-a))[1] == 2", "T | where +((+a))",
@@ -1082,6 +1153,8 @@ var evalCorpus = []string{
 	"T | join kind=inner (U) on k | sort by a | take 2 | where b > 0", "T | join kind=leftouter (U) on k | top 2 by a desc | where a > 1",
 	"T | join kind=inner (U) on k | top 3 by b | where k > 1 | count", "T | join (U) on k | sort by a desc, b | take 1 | where a < 2",
 	"T | join kind=inner (U) on k | sort by a | take 2 | extend n1 = a + 1 | where n1 > 2", "T | join kind=inner (U) on k | top 2 by a | project a | sort by a desc",
+	"let n = 3; T | sort by a, b | take n | take 1", "let n = 3; T | top n by a | take 2", "let n = 2; let m = n; T | sort by b | take 3 | take m | take 1",
+	"let n = 3; T | sort by a | take n | take 2 | count", "let n = 1; T | sort by a | take 2 | take n",
 	"T | sort by a desc | where k > 0 | take 2 | summarize n1 = sum(a)", "T | sort by a | extend n1 = a * 2 | take 2 | summarize n2 = min(a), n3 = max(n1) by k",
 }
 
